@@ -41,7 +41,7 @@ ANCHORS = [
     ('pjrpc/client/retry.py', 'retry'), ('pjrpc/client/retry.py', 'retry_async'),
 ]
 FLOORS = {'*': {'pair:dispatch-text': 3000, 'pair:dispatch-plain-vs-coroutine': 3000, 'pair:middleware': 500, 'pair:retry': 500,
-                'pair:notation': 300, 'pair:match': 300, 'retry:with-tracers': 200, 'retry:retried': 200, 'pair:trace': 300,
+                'pair:notation': 300, 'pair:match': 300, 'pair:notification-body': 150, 'retry:with-tracers': 200, 'retry:retried': 200, 'pair:trace': 300,
                 'middleware:failing-with-handlers': 100}}
 
 
@@ -104,7 +104,7 @@ def run_mw(ctx, stack, table, doc_name):
         is_async = flavour != 'sync'
         tspec = c12.table_spec(table)
         mws = [c12.make_mw(k, i, flavour) for i, k in enumerate(stack)]
-        handlers = {key: [c12.make_handler(key, j, a, flavour) for j, a in enumerate(actions)] for key, actions in tspec.items()}
+        handlers = c12.make_handlers(tspec, flavour)
         extra = {'concurrent_batch': False} if flavour == 'async-sequential' else {}
         w = world.World(is_async, None, middlewares=mws, error_handlers=handlers, **extra)
         doc = c12.DOCS[doc_name]
@@ -147,6 +147,7 @@ def run_retry(ctx, spec, codes, excs, n_tracers, requests):
     obs = {}
     retried = False
     for is_async in (False, True):
+        del c09.DRAWS[:]        # the "fresh value per draw" jitter source starts from the same state for both twins
         rs = c09.make_strategy(spec, codes, excs)
         log = []
         tracers = [c19.Rec(i, log) for i in range(n_tracers)]
@@ -301,6 +302,37 @@ def run_match(ctx, n, doc, strict, op, ids):
     ctx.ok('match', cls, sample={'calls': n, 'response_text': text, 'observation': obs[False]})
 
 
+NOTIFY_BODIES = [None, '', ' ', '\n', '\t\r\n ', 'null', '[]', '{}', '""', '0', '{"jsonrpc": "2.0", "id": null, "result": 1}',
+                 '{"jsonrpc": "2.0", "id": 5, "result": 1}', '[{"jsonrpc": "2.0", "id": 1, "result": 1}]', 'garbage', '\ufeff', 'é']
+
+
+def run_notify_body(ctx, body, strict, kind, n_tracers):
+    """what the transport hands back for a notification / an all-notification batch: nothing, blank text, any document"""
+    obs = {}
+    for is_async in (False, True):
+        log = []
+        tracers = [c19.Rec(i, log) for i in range(n_tracers)]
+        cls_ = clientside.AsyncClient if is_async else clientside.SyncClient
+        client = cls_(lambda text, is_notification, kwargs: body, tracers=tracers, strict=strict)
+        if kind == 'batch':
+            req = v20.BatchRequest(v20.Request('a', [1]), v20.Request('b', [2]))
+            st, out = clientside.outcome_of(lambda: client.batch.send(req), is_async)
+        elif kind == 'notify':
+            st, out = clientside.outcome_of(lambda: client.notify('m', 1), is_async)
+        else:
+            st, out = clientside.outcome_of(lambda: client.send(v20.Request('m', [1], id=None)), is_async)
+        obs[is_async] = {'outcome': norm_out(st, out), 'tracer-events': [(e[0], e[1], type(e[4]).__name__) for e in log],
+                         'wire': [(w['text'], w['is_notification']) for w in client.wire.sent]}
+    ctx.hit('pair:notification-body')
+    cls = (repr(body), strict, kind, n_tracers)
+    for aspect in ('outcome', 'tracer-events', 'wire'):
+        if obs[False][aspect] != obs[True][aspect]:
+            ctx.violation(f'client-halves-differ:{aspect}:notification-answered-with-a-body', 'notify-body', cls, body=body,
+                          strict=strict, kind=kind, sync=obs[False][aspect], asynchronous=obs[True][aspect])
+            return
+    ctx.ok('notify-body', cls, sample={'body': body, 'strict': strict, 'kind': kind, 'observation': obs[False]})
+
+
 # ---- generation ------------------------------------------------------------------------------------------
 
 def gen(ctx):
@@ -356,6 +388,11 @@ def gen(ctx):
             k += 1
             yield 'trace', dict(n_tracers=1 + k % 3, attempts=attempts, script=list(script),
                                 kind=('single', 'batch', 'notification')[k % 3], supplied_ctx=bool(k % 2))
+    for body in NOTIFY_BODIES:
+        for strict in (True, False):
+            for kind in ('send', 'notify', 'batch'):
+                for nt in (0, 2):
+                    yield 'notify-body', dict(body=body, strict=strict, kind=kind, n_tracers=nt)
     # notations over the loop-back world
     pool = c07.call_pool(rng, False)
     positional = [c for c in pool if c[1] == 'args']
@@ -382,4 +419,5 @@ def gen(ctx):
                                     ids=args.get('ids', 'one'))
 
 
-KINDS = {'text': run_text, 'mw': run_mw, 'retry': run_retry, 'notation': run_notation, 'match': run_match, 'trace': run_trace}
+KINDS = {'text': run_text, 'mw': run_mw, 'retry': run_retry, 'notation': run_notation, 'match': run_match, 'trace': run_trace,
+         'notify-body': run_notify_body}
